@@ -117,6 +117,9 @@ func validatePolygon(polygon *s2.Polygon) bool {
 
 // Return the area of the given polygon in m².
 func areaArea(context *api.Context, area b6.Area) (float64, error) {
+	if err := requireArea("area", area); err != nil {
+		return 0.0, err
+	}
 	m2 := 0.0
 	for i := 0; i < area.Len(); i++ {
 		polygon := area.Polygon(i)
